@@ -23,6 +23,7 @@ CONSTANTS
     Intervals,       \* sampling intervals (grid units, > 0)
     Offsets,         \* offsets (grid units)
     SampledPos,      \* positions queried on sampled descriptors
+    SampledRel,      \* TRUE: SampledPos is relative to the descriptor's offset
     TickVals,        \* values ticks are drawn from
     MaxTicks,        \* tick vectors have length 1..MaxTicks
     RangePos,        \* positions queried on range descriptors
@@ -76,7 +77,7 @@ Decomposed(d, a, b, sm) ==
         e == IndexOf(d, b, IF sm = "inclusive" THEN "leq" ELSE "less")
     IN  IF s = NoSuch \/ e = NoSuch \/ s > e THEN Empty ELSE << s, e >>
 
-Positions(d) == CASE d.kind = "sampled" -> SampledPos
+Positions(d) == CASE d.kind = "sampled" -> (IF SampledRel THEN { d.off + x : x \in SampledPos } ELSE SampledPos)
                   [] d.kind = "range"   -> RangePos
                   [] d.kind = "set"     -> SetPos
 
@@ -147,5 +148,5 @@ ExclusiveSubset == q.kind = "range_indices" =>
 \* BigI really is "unbounded" for the queried positions
 BigEnough == (~Bounded(cfg) /\ q.kind = "index_of" /\ r.idx # NoSuch) => r.idx < BigI
 
-Export == PrintT(<<"TX", ToJson([cfg |-> cfg, q |-> q', r |-> r'])>>)
+Export == PrintT(<<"TX", ToJson([g |-> G, cfg |-> cfg, q |-> q', r |-> r'])>>)
 =============================================================================
